@@ -25,7 +25,9 @@ PROPS = ["Bee2V/C06/Props.lean", "Bee2V/C06/PropsGen.lean", "Bee2V/C06/PropsGen2
          "Bee2V/C06/PropsMul.lean", "Bee2V/C06/PropsSim.lean", "Bee2V/C06/PropsTop.lean",
          # stage 2: ec2.c over any field of characteristic 2
          "Bee2V/C06/PropsBUn.lean", "Bee2V/C06/PropsBAdd.lean", "Bee2V/C06/PropsBAddA.lean", "Bee2V/C06/PropsBAA.lean",
-         "Bee2V/C06/PropsTop2.lean"]
+         "Bee2V/C06/PropsTop2.lean",
+         # phase 3: wwNAF buffer bound, validators link, arbitrary placements
+         "Bee2V/C06/PropsNafLen.lean", "Bee2V/C06/PropsValid.lean", "Bee2V/C06/PropsPlace.lean"]
 TARGETS = [r[:-5].replace("/", ".") for r in PROPS]
 
 
